@@ -54,6 +54,10 @@ impl<F> MiniAllocator<F> {
         self.directory.inner()
     }
 
+    pub fn sector_len(&self) -> usize {
+        self.directory.sector_len()
+    }
+
     pub fn next_mini_sector(&self, sector_id: u32) -> io::Result<u32> {
         let index = sector_id as usize;
         if index >= self.minifat.len() {
